@@ -166,11 +166,26 @@ class Minimiser:
         """Prefer shorter paths / PROBE-free forms: try replacing call args by simpler ones."""
         return ops
 
+    def shortest_failing_prefix(self, sc, ops):
+        """Long histories (marathons): bisect on the prefix length before anything finer."""
+        lo, hi = 1, len(ops)  # invariant: ops[:hi] fails
+        while hi - lo > max(8, len(ops) // 200) and time.time() < self.deadline:
+            mid = (lo + hi) // 2
+            cand = prune_dangling(ops[:mid])
+            if self.fails(sc, cand):
+                hi = mid
+            else:
+                lo = mid
+        return prune_dangling(ops[:hi])
+
     def run(self, sc, ops, step):
         if step is not None and step >= 0:
             cut = prune_dangling(ops[: step + 1])
             if self.fails(sc, cut):
                 ops = cut
+        if len(ops) > 400:
+            self.deadline = max(self.deadline, time.time() + 150)
+            ops = self.shortest_failing_prefix(sc, ops)
         ops = self.ddmin(sc, ops)
         sc = strip_unused(sc, ops)
         if not self.fails(sc, ops):  # stripping must be behaviour-preserving
